@@ -141,7 +141,8 @@ class RemoteDBusObject :
         Called by the L{DBusObjectHandler} when the connection is lost
         """
         if self._disconnectCBs:
-            for cb in self._disconnectCBs:
+            # a callback may cancel itself (or another one) while it runs
+            for cb in list(self._disconnectCBs):
                 cb(self, reason)
 
     def notifyOnSignal(self, signalName, callback, interface=None):
